@@ -147,6 +147,8 @@ fn cmd_check(args: &[String]) -> i32 {
     let replay_dir = arg(args, "--replay-dir").unwrap_or("/verif/replays").to_string();
     let time_limit: Option<u64> = arg(args, "--time-limit").and_then(|s| s.parse().ok());
     let known = load_known(arg(args, "--known"));
+    // C07: run indices from here on enumerate failing subsets block-wise
+    let enum_from: u64 = arg(args, "--enum-from").and_then(|s| s.parse().ok()).unwrap_or(u64::MAX);
     let t0 = Instant::now();
 
     if prop == Prop::C14 {
@@ -180,7 +182,7 @@ fn cmd_check(args: &[String]) -> i32 {
                             break;
                         }
                         for index in start..(start + CHUNK).min(runs) {
-                            let ex = execute_seed(prop, seed_of(base, prop, index));
+                            let ex = exec_index(prop, base, index, enum_from);
                             if let Some(h) = &ex.harness_error {
                                 harness.lock().unwrap().push(format!("index {index}: {h}"));
                                 stop.store(true, Ordering::Relaxed);
@@ -295,6 +297,14 @@ fn cmd_check(args: &[String]) -> i32 {
         }
     }
     code
+}
+
+fn exec_index(prop: Prop, base: u64, index: u64, enum_from: u64) -> Executed {
+    if prop == Prop::C07 && index >= enum_from {
+        let ex = runner::execute_c07_enum(base ^ if FEATURE_I { 0x4949_4949 } else { 0 }, index - enum_from);
+        return ex;
+    }
+    execute_seed(prop, seed_of(base, prop, index))
 }
 
 fn cmd_replay(args: &[String]) -> i32 {
